@@ -1,6 +1,6 @@
 (* Extraction of the C14 model (model/Lsp.v) and of the LSP decoder of the spec, for the correspondence check.
    Directives: those of ExtrOcamlBasic only; numbers stay Coq datatypes. *)
-From Coq Require Import List NArith.
+From Coq Require Import List NArith ZArith.
 Require Extraction.
 Require Import ExtrOcamlBasic.
 From Mos Require Import model.Utf model.Lsp spec.LspSpec.
